@@ -4,13 +4,16 @@ package app
 
 import (
 	"bytes"
+	"crypto/x509"
 	"encoding/binary"
+	"encoding/pem"
 	"fmt"
 	"math/big"
 	"sort"
 	"strconv"
 	"strings"
 	"testing"
+	"time"
 
 	sdk "github.com/cosmos/cosmos-sdk/types"
 	abci "github.com/tendermint/tendermint/abci/types"
@@ -88,7 +91,9 @@ type c06Scope struct {
 }
 
 func (o *cmC06) scope(msg sdk.Msg) c06Scope {
-	dep := func(owner string, dseq uint64) c06Scope { return c06Scope{kind: "deployment", owner: owner, dseq: dseq} }
+	dep := func(owner string, dseq uint64) c06Scope {
+		return c06Scope{kind: "deployment", owner: owner, dseq: dseq}
+	}
 	switch x := msg.(type) {
 	case *dtypes.MsgCreateDeployment:
 		return dep(x.ID.Owner, x.ID.DSeq)
@@ -314,6 +319,7 @@ func (o *cmC06) afterTx(m *chainMachine, tx *cmTx) {
 		}
 		return
 	}
+	o.providerScope(m, tx)
 	// (b) every changed key belongs to what the message names
 	sc := o.scope(tx.msg)
 	preKV := map[string][]byte{}
@@ -396,6 +402,62 @@ func (o *cmC06) afterTx(m *chainMachine, tx *cmTx) {
 					bad("revocation changed a certificate with a different serial number")
 				}
 			}
+		}
+	}
+}
+
+// c06ProviderScope: a provider-signed market message names one bid; bids, leases, bid deposits
+// and payment streams of OTHER providers do not belong to it. The one legitimate cascade is the
+// deployment's escrow account running dry (or being closed) inside the transaction, which
+// ends everything under the deployment.
+func (o *cmC06) providerScope(m *chainMachine, tx *cmTx) {
+	var provider string
+	var dep dtypes.DeploymentID
+	switch x := tx.msg.(type) {
+	case *mtypes.MsgCloseBid:
+		provider, dep = x.BidID.Provider, x.BidID.DeploymentID()
+	case *mtypes.MsgCreateBid:
+		provider, dep = x.Provider, x.Order.GroupID().DeploymentID()
+	case *mtypes.MsgWithdrawLease:
+		provider, dep = x.LeaseID.Provider, x.LeaseID.DeploymentID()
+	default:
+		return
+	}
+	if a0, ok := tx.pre.account(dtypes.EscrowAccountForDeployment(dep)); ok {
+		if a1, ok := tx.post.account(dtypes.EscrowAccountForDeployment(dep)); ok && a0.State == etypes.AccountOpen && a1.State != etypes.AccountOpen {
+			return
+		}
+	}
+	for _, b := range tx.post.bids {
+		if b.BidID.Provider == provider {
+			continue
+		}
+		if old, ok := tx.pre.bid(b.BidID); !ok || old.State != b.State || !old.Price.IsEqual(b.Price) {
+			m.fatalf("c06-foreign-provider-record", "%s signed by %s changed bid %s of another provider (now %s)", tx.label, tx.signer.name, m.bidName(b.BidID), b.State)
+		}
+	}
+	for _, l := range tx.post.leases {
+		if l.LeaseID.Provider == provider {
+			continue
+		}
+		if old, ok := tx.pre.lease(l.LeaseID); !ok || old.State != l.State {
+			m.fatalf("c06-foreign-provider-record", "%s signed by %s changed lease %s of another provider (now %s)", tx.label, tx.signer.name, m.bidName(mtypes.BidID(l.LeaseID)), l.State)
+		}
+	}
+	for _, p := range tx.post.payments {
+		if p.Owner == provider {
+			continue
+		}
+		if old, ok := tx.pre.payment(p.AccountID, p.PaymentID); !ok || old.State != p.State || !old.Withdrawn.IsEqual(p.Withdrawn) {
+			m.fatalf("c06-foreign-provider-record", "%s signed by %s changed the payment stream %s of another provider (state %s, withdrawn %s)", tx.label, tx.signer.name, cmPayKey(p), p.State, p.Withdrawn)
+		}
+	}
+	for _, a := range tx.post.accounts {
+		if a.ID.Scope != "bid" || a.Owner == provider {
+			continue
+		}
+		if old, ok := tx.pre.account(a.ID); !ok || old.State != a.State || !old.Balance.IsEqual(a.Balance) {
+			m.fatalf("c06-foreign-provider-record", "%s signed by %s changed the bid deposit %s of another provider", tx.label, tx.signer.name, cmAccKey(a.ID))
 		}
 	}
 }
@@ -499,6 +561,19 @@ func (o *cmC07) beforeTx(m *chainMachine, msg sdk.Msg, signer *cmActor) {
 		if i == 0 {
 			first = out.Bytes()
 			firstDesc = out.String()
+			// a certificate about to expire by the wall clock: let the instant pass before the
+			// transaction is executed again (a node replaying the block later must agree)
+			if cm, ok := msg.(*ctypes.MsgCreateCertificate); ok {
+				if blk, _ := pem.Decode(cm.Cert); blk != nil {
+					if c, err := x509.ParseCertificate(blk.Bytes); err == nil {
+						if d := time.Until(c.NotAfter); d > -time.Second && d < 2*time.Second {
+							time.Sleep(d + 1100*time.Millisecond)
+							o.interesting = true
+							m.label("replayed-across-wall-clock-expiry")
+						}
+					}
+				}
+			}
 			continue
 		}
 		if !bytes.Equal(first, out.Bytes()) {
